@@ -22,8 +22,9 @@ form: `cons n kids rest` is the group with content `n` and child groups `kids`, 
 its later siblings `rest`.  Sibling order is creation order (the order of netCDF4's
 `groups` dictionary).
 
-Code as patched by fixes/C11-*.patch is modelled by the un-suffixed functions; the
-behaviour of the code as it is in /repo is kept as `…Old`.
+The un-suffixed functions model the code as it is in /repo (after the nine C11 `fix:` commits,
+fixes/C11-*.patch); the behaviour before those commits is kept as `…Old`.  (Group attributes of
+several fields, the reader's base names: `Model/GroupsMulti.lean`.)
 -/
 import Cfdm.Generated.FlatteningRules
 
@@ -41,6 +42,8 @@ structure Node where
   vars : List Name := []
   scal : List Name := []
   attrs : List Name := []
+  /-- attributes of the group with their values (`setncatts` of the writer's group attributes) -/
+  avals : List (Name × Name) := []
 deriving Repr, DecidableEq
 
 inductive Forest where
